@@ -40,7 +40,15 @@ def bounds_in(dnf):
 
 
 def cmp_atom(a):
-    return a[0] == "bin" and a[1] in ("Lt", "Le", "Gt", "Ge", "Eq", "Ne")
+    return ipe.is_cmp_atom(a)
+
+
+def cmp_sides(a):
+    """operands of a comparison atom (for Range::contains: the tested value and both bounds)"""
+    if a[0] == "bin":
+        return [a[2], a[3]]
+    lo, hi, _ = ipe.range_of(a[2][0])
+    return [a[2][1], lo, hi]
 
 
 def membership_form(dnf, subject_pred):
@@ -52,7 +60,7 @@ def membership_form(dnf, subject_pred):
     for conj in dnf:
         for (a, v) in conj:
             if cmp_atom(a):
-                for side in (a[2], a[3]):
+                for side in cmp_sides(a):
                     c = core(side)
                     if c not in (core(lo), core(hi)) and subject_pred(c):
                         subj = c
@@ -60,7 +68,7 @@ def membership_form(dnf, subject_pred):
         return "no subject found", None
     # rewrite atoms over core() operands so that env lookups match
     def rw(a):
-        if cmp_atom(a):
+        if a[0] == "bin" and cmp_atom(a):
             return ("bin", a[1], core(a[2]), core(a[3]), a[4] if len(a) > 4 else "usize")
         return a
     d2 = [frozenset((rw(a), v) for (a, v) in conj) for conj in dnf]
@@ -218,7 +226,7 @@ def rule_decision_shape(ctx):
                         opaque[a] = hp
                 env = {("param", 5): x, core(lo): l, core(hi): h}
                 def rw(a):
-                    if cmp_atom(a):
+                    if a[0] == "bin" and cmp_atom(a):
                         return ("bin", a[1], core(a[2]), core(a[3]), a[4] if len(a) > 4 else "usize")
                     return a
                 ev = ipe.Eval(env, {rw(a): v for a, v in opaque.items()})
@@ -320,7 +328,47 @@ def rule_soft_only(ctx):
         ctx.check(ok, R, "principal-from-address", b.where(bi, si), "principal_mapping <- find_mapping_no_bias(principal_mapping_address)", "principal_mapping <- %s" % show(e)[:120])
 
 
+def rule_offset_relative(ctx, rule="C20/offset-relative-to-copy"):
+    """the stack-pointer offset handed to the stack scan / the sanitizer is sp - (address the bytes were copied from):
+    the scan must start at the word the stack pointer designates inside THIS copy"""
+    R = rule
+    n = 0
+    for fn in (FTS, MW + "::crash_thread_references_principal_mapping"):
+        b = ctx.body(R, fn)
+        if b is None:
+            continue
+        o = Origin(b)
+        k = 0
+        for x, t in b.calls(lambda c: c.is_(SHP) or (c.short or "").endswith("PtraceDumper::sanitize_stack_copy")):
+            cv = CalleeView(t["callee"])
+            a = o.call_args(x)
+            if cv.is_(SHP):
+                bytes_e, off = a[1], a[2]
+                sp_e = None
+            else:
+                bytes_e, sp_e, off = a[1], a[2], a[3]
+            n += 1
+            k += 1
+            cps = [s_ for s_ in walk(bytes_e) if s_[0] == "call" and s_[1].endswith("copy_from_process")]
+            offc = core(off)
+            ok = False
+            why = "offset is %s" % show(offc)[:120]
+            if len(cps) == 1 and offc[0] == "call" and offc[1].split("::")[-1] in ("saturating_sub", "wrapping_sub", "checked_sub") and len(offc[2]) == 2:
+                src = cps[0][2][1]
+                ok = nosite(core(offc[2][1])) == nosite(core(src))
+                if not ok:
+                    why = "offset is relative to %s but the bytes were copied from %s" % (show(core(offc[2][1]))[:80], show(core(src))[:80])
+                if ok and sp_e is not None:
+                    ok = nosite(core(offc[2][0])) == nosite(core(sp_e))
+            elif len(cps) == 1 and offc[0] == "bin" and offc[1] == "Sub":
+                ok = nosite(core(offc[3])) == nosite(core(cps[0][2][1]))
+            ctx.check(ok, R, (fn.split("::")[-1], "%s#%d" % ((cv.short or "").split("::")[-1], k)), b.where(x),
+                      "the stack-pointer offset is sp - (source address of exactly the bytes being scanned)", "the stack-pointer offset does not refer to the copy being scanned: %s" % why)
+    ctx.floor(R, "scans / sanitizer calls with a stack-pointer offset", n, 3)
+
+
 def run(ctx):
+    rule_offset_relative(ctx)
     rule_range_siblings(ctx)
     rule_decision_shape(ctx)
     rule_record_kept(ctx)
